@@ -7,6 +7,7 @@ import gv
 PROP = "C18"
 REQ_PROPS = ["GV.Props.Props_C18"]
 REQ_RUN = ["GV.Vec.Run"]
+BINS = ["c18"]
 
 TRUSTED = [
     "Coq 8.16.1 kernel (coqc; vm_compute used to run the model; no native_compute)",
@@ -18,14 +19,6 @@ TRUSTED = [
     "harness/src/bin/c18.rs (generators, oracle, printing of observations as Coq terms), lib/gv.py",
     "IEEE rounding of the f32 kernels is runtime, not modelled (support: relative-error comparison on float inputs)",
 ]
-
-
-def load_known_fragment():
-    """known.d/C18.json is used until the integrator has merged it into known-findings.json."""
-    p = os.path.join(gv.ROOT, "known.d", PROP + ".json")
-    if not os.path.exists(p):
-        return []
-    return [f for f in json.load(open(p)).get("findings", []) if f.get("property") == PROP]
 
 
 _orig_coq_eval = gv.coq_eval
@@ -46,8 +39,6 @@ def run(tier, seed):
 
 def _run(tier, seed):
     chk = gv.Check(PROP, tier, seed, level="proof")
-    have = {f["id"] for f in chk.known}
-    chk.known += [f for f in load_known_fragment() if f["id"] not in have]
     proof = gv.proof_status(PROP, REQ_PROPS)
     ncases = 520 if tier == "quick" else 6000
     ok, out, binp = gv.cargo_build("c18")
@@ -66,15 +57,19 @@ def _run(tier, seed):
     chk.coverage["rule"] = (
         "kernels: all four metrics on exact integer / dyadic vectors (dims 1,3,7,8,9,15,16,17,31,33,128, zero vectors, duplicates, "
         "difference only in the last coordinate), result compared as f32 bits with the plain definition and with the 8-/4-/1-lane "
-        "evaluation; brute_force_knn(+filtered) on integer vectors with ties and duplicate ids, k in {0,1,n-1,n,n+1,usize::MAX}; "
+        "evaluation; brute_force_knn(+filtered) on integer vectors with ties and duplicate ids, k in {0,1,n-1,n,n+1,usize::MAX}, and on "
+        "vectors of extreme magnitude (inf / NaN distances; <= 20 vectors) against the comparator model; "
         "HNSW: histories of insert / re-insert / remove / remove-absent / search / batch / len on the real HnswIndex "
         "(M 1..16, M0 1..32, ef_construction 1..128, k and ef in {0,1,..,>size,usize::MAX}), replayed operation by operation in the "
-        "model (ids, f32 distance bits, batch = singles, len; with the hook also levels, adjacency, entry point, max level; without "
-        "it only indexes built with ml = 0 are replayed and the entry picked by remove is resolved by the model); "
-        "a history is non-trivial when it has >= 1 remove or re-insert and >= 1 search with 1 <= k <= size; "
+        "model (ids, f32 distance bits, batch = singles, len; through the hook also levels, adjacency, entry point, max level after "
+        "every mutation); a history is non-trivial when it has >= 1 remove or re-insert and >= 1 search with 1 <= k <= size; "
         "oracle on every search of every history (also float indexes of 120..400 vectors, QuantizedHnswIndex, GrafeoDB::vector_search): "
-        "<= k, distinct, live, exact distance, sorted, batch = one-by-one; a short result is a property failure classified by "
-        "k_unreachable (C18-K1); distinct = distinct (kind,input)")
+        "<= k, distinct, live, exact distance, sorted, batch = one-by-one, and at least min(k, r) results where r = number of vectors "
+        "that layer-0 links reach from the search's start node (recomputed by the harness from the hook's dump, and by the model); "
+        "QuantizedHnswIndex (none/scalar/binary, rescoring on/off, factor 1..4, k up to usize::MAX) against a twin HnswIndex with the "
+        "same seed replayed in the model + the wrapper model; VectorScanOperator / VectorJoinOperator (brute force, static query, "
+        "HNSW, distance filter, chunk capacities 1..6 and default, left chunks 1..3) against the per-row searches and the loop model; "
+        "scalar quantiser on an exact grid; distinct = distinct (kind,input)")
     hs = [c for c in cases if c["k"] == "hnsw-history"]
     chk.coverage["samples"] = [{"kind": c["k"], "input": c["in"][:300], "impl": c["impl"][:200]} for c in (hs[1:4] + cases[20:23])]
     chk.coverage["trusted_base"] = TRUSTED
@@ -84,8 +79,11 @@ def _run(tier, seed):
         "validated for the transcribed BinaryHeap on every run)",
         "the level of an inserted node (RNG) and the key picked by remove (HashMap iteration order) are inputs of the model",
         "IEEE rounding is runtime: on inexact inputs the kernels are only compared within a relative error bound (support)",
-        "search_complete carries layer-0 reachability as a hypothesis; reachability after arbitrary histories is NOT a theorem "
-        "(finding C18-K1) and is searched on every run",
+        "search_complete carries layer-0 reachability as a hypothesis, as the property does (k results for k REACHABLE vectors); that "
+        "remove()/re-insert can leave live vectors unreachable (search_complete_refuted) is reported as an observation "
+        "(tags live-vector-unreachable-at-layer0, shortfall-explained-by-unreachability), not as a property failure",
+        "QuantizedHnswIndex: the inner graph is private; a twin HnswIndex::with_seed with the same seed and operations stands for it "
+        "(removals of the entry point are avoided in those cases); the product quantiser's ranking is oracle-only",
     ]
     return chk.finish(proof)
 
